@@ -22,22 +22,30 @@ def digitsVal (buf : Buf) (i j : Nat) (acc : Nat) : Nat :=
   else acc
 termination_by j - i
 
+/-- the fraction part where the integer digits end (`i2`): has-fraction, index after it, all
+    significant digits so far as one integer, number of fraction digits -/
+def fracOf (buf : Buf) (i2 e intv : Nat) : Bool × Nat × Nat × Nat :=
+  let hasFrac := buf[i2]? = some 46 && i2 < e
+  let i3 := if hasFrac then skipDigits buf (i2+1) else i2
+  (hasFrac, i3, if hasFrac then digitsVal buf (i2+1) i3 intv else intv, if hasFrac then i3 - (i2+1) else 0)
+
+/-- the exponent part where the fraction ends (`i3`): has-exponent, its signed value -/
+def expOf (buf : Buf) (i3 e : Nat) : Bool × Int :=
+  let hasExp := (buf[i3]? = some 101 || buf[i3]? = some 69) && i3 < e
+  let eneg := hasExp && buf[i3+1]? = some 45
+  let i4 := if hasExp then (if buf[i3+1]? = some 45 || buf[i3+1]? = some 43 then i3+2 else i3+1) else i3
+  let ev := if hasExp then digitsVal buf i4 e 0 else 0
+  (hasExp, if eneg then -(ev : Int) else (ev : Int))
+
 /-- Exact reading of a literal that `Spec.number` accepted as `[i, e)`. -/
 def decOf (buf : Buf) (i e : Nat) : Dec :=
   let neg := buf[i]? = some 45
   let i1 := if neg then i+1 else i
   let i2 := skipDigits buf i1                -- end of integer digits
   let intv := digitsVal buf i1 i2 0
-  let hasFrac := buf[i2]? = some 46 && i2 < e
-  let i3 := if hasFrac then skipDigits buf (i2+1) else i2
-  let mant := if hasFrac then digitsVal buf (i2+1) i3 intv else intv
-  let fracDigits : Nat := if hasFrac then i3 - (i2+1) else 0
-  let hasExp := (buf[i3]? = some 101 || buf[i3]? = some 69) && i3 < e
-  let eneg := hasExp && buf[i3+1]? = some 45
-  let i4 := if hasExp then (if buf[i3+1]? = some 45 || buf[i3+1]? = some 43 then i3+2 else i3+1) else i3
-  let ev := if hasExp then digitsVal buf i4 e 0 else 0
-  let ex : Int := if eneg then -(ev : Int) else (ev : Int)
-  { neg := neg, mant := mant, exp := ex - (fracDigits : Int), isInt := !hasFrac && !hasExp }
+  let fr := fracOf buf i2 e intv
+  let ex := expOf buf fr.2.1 e
+  { neg := neg, mant := fr.2.2.1, exp := ex.2 - (fr.2.2.2 : Int), isInt := !fr.1 && !ex.1 }
 
 /-- round-half-even of `n / d` (`d > 0`) -/
 def divRne (n d : Nat) : Nat :=
